@@ -52,9 +52,7 @@ let rec read_sx (w : ostring list) : sx * ostring list =
       let (args, r1) = go (int_of_string n) r [] in (SCall (bytes_of_hex' h, args), r1)
   | _ -> failwith "sx"
 let toks l = if l = [] then "-" else String.concat "," (List.map string_of_tok l)
-let class_name c = match c with
-  | CSafe -> "safe" | CPostfixRight -> "postfix-on-right-operand" | CPostfixUnary -> "postfix-on-unary-operand"
-  | CGroupUnary -> "group-leading-unary" | CUpperLt -> "upper-ident-before-lt"
+let class_name c = match c with CSafe -> "safe" | CGroupUnary -> "group-leading-unary"
 let () = iter_lines (fun line ->
   try
     match words line with
